@@ -5,11 +5,13 @@ CONSTANTS MaxRuns = 2
   BufSizes = {1, 2}
   Edges1 <- E1
   EdgesY <- EY
+  Caches = {FALSE, TRUE}
   WriteAlways = FALSE
 INVARIANT PerBranch
 INVARIANT FilesRef
 INVARIANT NoRedo
 INVARIANT RedoRef
 INVARIANT RunIsSem
+INVARIANT CacheRef
 INVARIANT Emitted
 CHECK_DEADLOCK FALSE
